@@ -5,11 +5,12 @@ VERIF = os.path.dirname(os.path.dirname(os.path.abspath(__file__)))
 sys.path.insert(0, os.path.join(VERIF, 'harness'))
 props = [json.loads(l) for l in open(os.path.join(VERIF, 'properties.jsonl'))]
 NA = json.load(open(os.path.join(VERIF, 'harness', 'not_applicable.json')))
+CLAIMED = json.load(open(os.path.join(VERIF, 'harness', 'claimed.json')))   # maintained by hand: checks that are integrated
 checks = []; na = []
 for p in props:
     pid = p['id']
     path = os.path.join(VERIF, 'harness', 'props', pid.lower() + '.py')
-    if os.path.exists(path) and pid not in NA:
+    if os.path.exists(path) and pid not in NA and pid in CLAIMED:
         mod = importlib.import_module('props.' + pid.lower())
         checks.append({
             'property_id': pid,
